@@ -491,6 +491,14 @@ func c14Prune(e *c14env) {
 				clientDeletes = append(clientDeletes, call)
 			}
 		}
+		// the drop primitive of a named clients map type: node.clients.drop(k)
+		dropKey := map[*ast.CallExpr]ast.Expr{}
+		for _, w := range e.trieWrites(f, fd.Body) {
+			if call, isCall := w.at.(*ast.CallExpr); isCall && !w.store && w.key != nil && w.field == e.clientsF && !c14isBuiltin(f, call, "delete") {
+				clientDeletes = append(clientDeletes, call)
+				dropKey[call] = w.key
+			}
+		}
 		if len(prunes) == 0 && len(clientDeletes) == 0 {
 			return
 		}
@@ -498,14 +506,25 @@ func c14Prune(e *c14env) {
 
 		// remove deletes the caller's client id
 		for _, d := range clientDeletes {
-			k := c14obj(f, d.Args[1])
+			keyExpr := dropKey[d]
+			if keyExpr == nil {
+				keyExpr = d.Args[1]
+			}
+			// the key: a string parameter, or a string field of a parameter object (sub.clientID)
+			k := c14obj(f, keyExpr)
+			isPar := k != nil && c14isParam(f, k)
 			var topicParam types.Object
 			for _, s := range e.sourceCalls(f, fd.Body, false) {
 				if len(s.Args) == 1 {
-					topicParam = c14obj(f, s.Args[0])
+					topicParam = c14place(f, s.Args[0])
 				}
 			}
-			ok := k != nil && c14isParam(f, k) && k != topicParam && types.Identical(k.Type().Underlying(), types.Typ[types.String])
+			if sel, isSel := ast.Unparen(keyExpr).(*ast.SelectorExpr); isSel {
+				if sl := f.Info.Selections[sel]; sl != nil && sl.Kind() == types.FieldVal && c14isParam(f, c14obj(f, sel.X)) {
+					k, isPar = sl.Obj(), true
+				}
+			}
+			ok := k != nil && isPar && k != topicParam && types.Identical(k.Type().Underlying(), types.Typ[types.String])
 			c.Check(ok, "R-C14-3", cons+"|deletes the caller's client id", pos(c, d), "delete(<node>.clients, <client id parameter>)",
 				"the key removed from a node's clients map is not the client-id parameter: another client's subscription is dropped or the caller's stays")
 		}
@@ -697,15 +716,14 @@ func c14RemoveWalk(e *c14env) {
 						}
 					}
 				}
-			case *ast.CallExpr:
-				if c14isBuiltin(g, t, "delete") && len(t.Args) == 2 {
-					if _, isClients := c14fieldRecv(g, t.Args[0], e.clientsF); isClients {
-						dels[t] = true
-					}
-				}
 			}
 			return true
 		})
+		for _, w := range e.trieWrites(g, g.Body) {
+			if call, ok := w.at.(*ast.CallExpr); ok && !w.store && w.key != nil && w.field == e.clientsF {
+				dels[call] = true // delete(<node>.clients, k) or the drop primitive of a named map type
+			}
+		}
 	}
 	if len(dels) == 0 || len(lookups) == 0 {
 		c.Undecide("R-C14-3", rm.cons+"|client removed only from the node of the whole filter", pos(c, f.Body), "cannot find the child lookups of the walk or the delete from a clients map in remove and its helpers")
